@@ -438,6 +438,131 @@ def recurring_case(run, origin, interval_ms, offset_ms, install_shift, nfire, vi
         run.violation("recurring-task-stopped", dict(wit, fired=len(ks), expected=nfire))
 
 
+class LifeTask(RecurringTask):
+    """a recurring task with a script: what it does at its n-th firing"""
+
+    def __init__(self, interval, offset, log, script):
+        RecurringTask.__init__(self, interval, offset)
+        self.log = log
+        self.script = script
+        self.n = 0
+
+    def process_task(self):
+        self.log.append(CLK.now)
+        self.n += 1
+        act = self.script.get(self.n)
+        if act == "raise":
+            raise Boom("recurring firing %d" % self.n)
+        if act == "suspend-self":
+            self.suspend_task()
+        if isinstance(act, tuple) and act[0] == "reinstall-self":
+            self.install_task(act[1], act[2])
+
+
+def recurring_life(run, rng, origin):
+    """one recurring task object through a life: re-installed with other intervals and offsets (an explicit offset of 0 too),
+    suspended from outside and resumed, suspending or re-installing itself while it fires, raising at some firings.
+    Reference: after every (re-)installation or resumption the firings are the slots offset + k * interval strictly after
+    that instant; none while suspended"""
+    fresh()
+    CLK.now = origin + rng.choice([0.0, 0.25, 0.12371])
+    log = []
+    ivs = [100, 250, 1000, 700]
+    offs = [None, 0, 0.0, 50, 250, 30]
+    iv, off = rng.choice(ivs), rng.choice(offs)
+    script = {}
+    for n in rng.sample(range(2, 40), 6):
+        script[n] = rng.choice(["raise", "raise", "suspend-self", ("reinstall-self", rng.choice(ivs), rng.choice(offs))])
+    t = LifeTask(iv, off, log, script)
+    LIVE_TASKS.append(t)
+    hist = [("install", iv, off, round(CLK.now - origin, 3))]
+    t.install_task()
+    expected = []
+    state = {"iv": iv, "off": off or 0, "from": CLK.now, "active": True}
+    wit = {"origin": origin, "history": hist, "script": {str(k): v for k, v in script.items()}}
+
+    def slots_until(t_end):
+        """slots of the current installation in (from, t_end]"""
+        out = []
+        if not state["active"]:
+            return out
+        I = Fraction(state["iv"]) / 1000
+        O = Fraction(state["off"]) / 1000
+        k = (Fraction(state["from"]) + Fraction(1, 1000000) - O) // I + 1
+        while float(O + k * I) <= t_end + 1e-9:
+            out.append(float(O + k * I))
+            k += 1
+        return out
+
+    fired_n = [0]
+
+    def advance(d):
+        """advance in pieces so that what the script does at a firing takes effect in the reference at that instant"""
+        t_end = CLK.now + d
+        while True:
+            nxt = slots_until(t_end)
+            if not nxt:
+                break
+            s = nxt[0]
+            expected.append(s)
+            fired_n[0] += 1
+            act = script.get(fired_n[0])
+            state["from"] = s
+            if act == "suspend-self":
+                state["active"] = False
+                hist.append(("suspend-self", round(s - origin, 3)))
+            elif isinstance(act, tuple):
+                state["iv"] = act[1]
+                if act[2] is not None:
+                    state["off"] = act[2]
+                hist.append(("reinstall-self", act[1], act[2], round(s - origin, 3)))
+            elif act == "raise":
+                hist.append(("raise", round(s - origin, 3)))
+        CLK.drive(until=t_end, max_steps=200000)
+
+    try:
+        for step in range(rng.randrange(4, 10)):
+            # (durations that keep the instants of the operations away from the slots, which are multiples of 10 ms)
+            advance(rng.choice([0.30351, 1.00737, 2.51113, 0.05319]))
+            r = rng.random()
+            if r < 0.35:
+                iv2, off2 = rng.choice(ivs + [None]), rng.choice(offs)
+                hist.append(("reinstall", iv2, off2, round(CLK.now - origin, 3)))
+                t.install_task(iv2, off2)
+                if iv2 is not None:
+                    state["iv"] = iv2
+                if off2 is not None:
+                    state["off"] = off2
+                state["from"] = CLK.now
+                state["active"] = True
+            elif r < 0.6:
+                hist.append(("suspend", round(CLK.now - origin, 3)))
+                t.suspend_task()
+                state["active"] = False
+            elif r < 0.85 and not state["active"]:
+                hist.append(("resume", round(CLK.now - origin, 3)))
+                t.resume_task()
+                state["from"] = CLK.now
+                state["active"] = True
+        advance(1.50193)
+    except StepBudgetExceeded as err:
+        run.violation("recurring-task-spins", dict(wit, error=str(err), fired=len(log)))
+        return
+    t.suspend_task()
+    run.count("recurring_lives")
+    run.count("callbacks_observed", len(log))
+    got = [round(x - origin, 4) for x in log]
+    want = [round(x - origin, 4) for x in expected]
+    if got != want:
+        k = next((i for i in range(min(len(got), len(want))) if abs(got[i] - want[i]) > 2e-4), min(len(got), len(want)))
+        if k == min(len(got), len(want)) and len(got) == len(want):
+            return
+        last = [h for h in hist if h[-1] <= (want[k] if k < len(want) else got[k]) + 1e-6][-1:]
+        what = (last[0][0] if last else "install")
+        key = "recurring-task-%s/after-%s" % ("fired-where-none-was-due" if (k >= len(want) or (k < len(got) and got[k] < want[k])) else "missed-a-due-firing", what)
+        run.violation(key, dict(wit, first_difference_at=k, fired=got[max(0, k - 2):k + 3], expected=want[max(0, k - 2):k + 3]))
+
+
 # ----------------------------------------------------------------------
 # (D,E) deferred batches, isolation
 # ----------------------------------------------------------------------
@@ -628,7 +753,7 @@ def main():
         "virtual time: bacpypes.task._time is the only replaced function; heap, due test, draining and exception handling are the library's",
         "an overdue task fires at the current instant; the order among due tasks is (due time, installation order)",
         "a recurring task installed within 2 us before a slot is not generated (the library deliberately adds 1 us)",
-        "whether a raising recurring task is re-armed is not judged"])
+        "a recurring task keeps its slots through a firing that raises ('fires once at each successive multiple')"])
     if run.tier == "replay":
         return replay(run)
     thorough = run.tier == "thorough"
@@ -694,6 +819,9 @@ def main():
             run.case(("rec", str(iv), str(off), org, sh), sample={"interval_ms": str(iv), "offset_ms": str(off), "origin": org, "shift": sh},
                      sample_key=("rec", str(iv)))
             recurring_case(run, org, iv, off, sh, nfire, via_function=(idx % 5 == 0))
+    for i in range((6000 if thorough else 300) // (run.shard[1] if thorough else 1)):
+        run.case(("recurring-life", run.shard[0], i), sample=None)
+        recurring_life(run, rng, rng.choice([0.0, 1000.0, 1000000.0, 1.7e9]))
     # (D, E)
     if run.want("D"):
         maxn = 6 if thorough else 5
